@@ -265,6 +265,9 @@ type c11Transcript struct {
 	Base   string `json:"base"`
 	Seed   string `json:"seed"`             // "" = the real proof; otherwise every number/hash is re-drawn from this seed
 	Repeat int    `json:"repeat,omitempty"` // derive the transcript this many times on one VerifierChip and compare the last
+	// Cfg overrides configuration values of the circuit description (both copies): "proof_of_work_bits"
+	// (not part of plonky2's transcript), "num_query_rounds" (number of indices drawn at the end)
+	Cfg map[string]uint64 `json:"config_override,omitempty"`
 }
 
 // randomiseDoc replaces every number by a pseudo-random canonical Goldilocks element and every
@@ -337,6 +340,14 @@ func c11TranscriptRun(a c11Transcript) caseResult {
 	pw, _ := variables.DeserializeProofWithPublicInputs(types.ReadProofWithPublicInputsFromRequest(raw))
 	vd := variables.DeserializeVerifierOnlyCircuitData(types.ReadVerifierOnlyCircuitDataFromRequest(vraw))
 	cd := types.ReadCommonCircuitData(corp.Path(a.Base, "common_data.json"))
+	if v, ok := a.Cfg["proof_of_work_bits"]; ok {
+		cd.Config.FriConfig.ProofOfWorkBits, cd.FriParams.Config.ProofOfWorkBits = v, v
+		rc.Config.FriConfig.ProofOfWorkBits, rc.FriParams.Config.ProofOfWorkBits = v, v
+	}
+	if v, ok := a.Cfg["num_query_rounds"]; ok {
+		cd.Config.FriConfig.NumQueryRounds, cd.FriParams.Config.NumQueryRounds = v, v
+		rc.Config.FriConfig.NumQueryRounds, rc.FriParams.Config.NumQueryRounds = v, v
+	}
 	mk := func(out *[]frontend.Variable) *challCircuit {
 		pw2, _ := variables.DeserializeProofWithPublicInputs(types.ReadProofWithPublicInputsFromRequest(raw))
 		return &challCircuit{PublicInputs: pw2.PublicInputs, Proof: pw2.Proof, VerifierData: variables.DeserializeVerifierOnlyCircuitData(types.ReadVerifierOnlyCircuitDataFromRequest(vraw)), CommonCircuitData: cd, Out: out, Repeat: a.Repeat}
@@ -378,7 +389,7 @@ func TestC11(t *testing.T) {
 	s := newSuite("C11")
 	r := s.r
 	defer r.Flush()
-	r.Rule("(1) histories of 0..200 challenger operations drawn by rapid from {ObserveElement, ObserveElements, ObserveHash, ObserveBN254Hash, ObserveCap, ObserveExtensionElement(s), GetChallenge, GetNChallenges, GetExtensionChallenge, GetHash} with canonical and value+k*p operands, executed in one circuit and compared squeeze by squeeze with the reference duplex challenger (model-based / stateful testing; the whole history shrinks as one value).  (2) VerifierChip.GetChallenges on the five real proofs and on transcripts of the same shape in which every field element and hash is re-drawn, compared with the reference transcript (betas, gammas, alphas, zeta, FRI alpha, FRI betas, PoW response, query indices); in part of the cases the transcript is derived two or three times on the same VerifierChip and the last result is compared (no state may leak between transcripts).  (3) metamorphic: one observed value of a history changed => every squeeze after it changes, none before.  Non-trivial history = contains an observation after a squeeze and more than 8 pending observed elements (crosses the rate boundary); distinct = history.")
+	r.Rule("(1) histories of 0..200 challenger operations drawn by rapid from {ObserveElement, ObserveElements, ObserveHash, ObserveBN254Hash, ObserveCap, ObserveExtensionElement(s), GetChallenge, GetNChallenges, GetExtensionChallenge, GetHash} with canonical and value+k*p operands, executed in one circuit and compared squeeze by squeeze with the reference duplex challenger (model-based / stateful testing; the whole history shrinks as one value).  (2) VerifierChip.GetChallenges on the five real proofs and on transcripts of the same shape in which every field element and hash is re-drawn, compared with the reference transcript (betas, gammas, alphas, zeta, FRI alpha, FRI betas, PoW response, query indices); in part of the cases the transcript is derived two or three times on the same VerifierChip and the last result is compared (no state may leak between transcripts); a third of the transcripts uses a configuration variant (proof_of_work_bits in {0, 1, 15, 17, 40, 63} - the difficulty is not part of plonky2's transcript - or 1..40 query rounds).  (3) metamorphic: one observed value of a history changed => every squeeze after it changes, none before.  Non-trivial history = contains an observation after a squeeze and more than 8 pending observed elements (crosses the rate boundary); distinct = history.")
 	r.Assume("reference Poseidon/challenger (validated by accepting the real proofs and reproducing the challenge constants of tests/fri_test.go)")
 
 	s.on("history", func(b json.RawMessage) caseResult {
@@ -485,7 +496,23 @@ func TestC11(t *testing.T) {
 		if rep > 1 {
 			class += "/repeated-on-one-chip"
 		}
-		s.exec(rt, "transcript", c11Transcript{Base: b, Seed: fmt.Sprint(seed), Repeat: rep}, class)
+		tc := c11Transcript{Base: b, Seed: fmt.Sprint(seed), Repeat: rep}
+		if rapid.IntRange(0, 2).Draw(rt, "cfg") == 0 {
+			tc.Cfg = map[string]uint64{}
+			if rapid.Bool().Draw(rt, "pow") {
+				tc.Cfg["proof_of_work_bits"] = rapid.SampledFrom([]uint64{0, 0, 1, 15, 17, 40, 63}).Draw(rt, "pow_bits")
+			} else {
+				tc.Cfg["num_query_rounds"] = uint64(rapid.IntRange(1, 40).Draw(rt, "rounds"))
+			}
+			class += "/config-variant"
+		}
+		s.exec(rt, "transcript", tc, class)
 	})
+	// deterministic: every real proof also against the configuration without grinding
+	for i, b := range corp.Names {
+		if mine(i + 7) {
+			s.exec(t, "transcript", c11Transcript{Base: b, Cfg: map[string]uint64{"proof_of_work_bits": 0}}, "transcript/real/config-variant")
+		}
+	}
 	r.Done()
 }
